@@ -255,3 +255,64 @@ Theorem C09_no_sync_before_revision_cache : forall h n,
   runningb n (g_state (grun Composite ginit h)) = false.
 Proof. exact C20Proofs.C09_no_sync_before_revision_cache. Qed.
 Print Assumptions C09_no_sync_before_revision_cache.
+
+(* ---- round 6 ---- *)
+From MC Require Import Proofs.Round3Proofs Proofs.Round6Proofs.
+
+Theorem C09_refused_claim_ends_sync :
+  forall (c : ccfg) (k : cache) (parent : json) (observed related : umap),
+       exists kont : option (list json) -> prog hook_result,
+         sync_revisions_rolling c k parent observed related = ' oc <~ claim_revisions c k parent;; kont oc /\
+         kont None = Ret HRErr.
+Proof. exact Round6Proofs.C09_refused_claim_ends_sync. Qed.
+Print Assumptions C09_refused_claim_ends_sync.
+
+Theorem C09_refused_claim_ends_sync_run :
+  forall (c : ccfg) (k : cache) (parent : json) (observed related : umap) (e : env) (h : list (call * answer)),
+       snd (Prog.run (claim_revisions c k parent) e h) = None ->
+       Prog.run (sync_revisions_rolling c k parent observed related) e h =
+       (fst (Prog.run (claim_revisions c k parent) e h), HRErr).
+Proof. exact Round6Proofs.C09_refused_claim_ends_sync_run. Qed.
+Print Assumptions C09_refused_claim_ends_sync_run.
+
+Theorem C09_refused_claim_only_claim_calls :
+  forall (c : ccfg) (k : cache) (parent : json) (observed related : umap) (e : env) (h : list (call * answer)),
+       snd (Prog.run (claim_revisions c k parent) e h) = None ->
+       exists new : list (call * answer),
+         fst (Prog.run (sync_revisions_rolling c k parent observed related) e h) = (new ++ h)%list /\
+         Forall (fun ca : call * answer => revphase_api_call c (fst ca)) new /\
+         Forall (fun ca : call * answer => is_hook_call (fst ca) = false /\ is_child_write c (fst ca) = false) new /\
+         snd (Prog.run (sync_revisions_rolling c k parent observed related) e h) = HRErr.
+Proof. exact Round6Proofs.C09_refused_claim_only_claim_calls. Qed.
+Print Assumptions C09_refused_claim_only_claim_calls.
+
+Theorem C09_refused_claim_ends_whole_sync :
+  forall (c : ccfg) (k : cache) (parent : json) (e : env) (h : list (call * answer))
+         (p1 : json) (observed : umap),
+       ignores_parent c parent = false ->
+       snd (Prog.run (sync_finalizer c parent) e h) = Composite.ROk p1 ->
+       ignores_parent c p1 = false ->
+       let h1 := fst (Prog.run (sync_finalizer c parent) e h) in
+       snd (Prog.run (claim_children c k p1) e h1) = Some observed ->
+       let h2 := fst (Prog.run (claim_children c k p1) e h1) in
+       negb (any_rolling c) || is_deleting p1 && negb (should_finalize c p1) = false ->
+       snd (Prog.run (claim_revisions c k p1) e h2) = None ->
+       Prog.run (sync_parent_object_r c k parent) e h = (fst (Prog.run (claim_revisions c k p1) e h2), SErr).
+Proof. exact Round6Proofs.C09_refused_claim_ends_whole_sync. Qed.
+Print Assumptions C09_refused_claim_ends_whole_sync.
+
+Theorem C09_refused_claim_ends_sync_inhabited :
+  result_of (claim_revisions R3X.cfg R6X.k0 R3X.parent) R6X.e_refuse = None /\
+       map (fun ca : call * answer => R3X.call_sig (fst ca))
+         (trace_of (sync_revisions_rolling R3X.cfg R6X.k0 R3X.parent [] []) R6X.e_refuse) =
+       [(VGet, R3X.P, "p"); (VGet, R3X.R, "p-old"); (VUpdate, R3X.R, "p-old")] /\
+       result_of (sync_revisions_rolling R3X.cfg R6X.k0 R3X.parent [] []) R6X.e_refuse = HRErr /\
+       map (fun ca : call * answer => R3X.call_sig (fst ca)) (trace_of (sync_r R3X.cfg R6X.k0) R6X.e_refuse) =
+       [(VGet, R3X.P, "p"); (VGet, R3X.R, "p-old"); (VUpdate, R3X.R, "p-old")] /\
+       result_of (sync_r R3X.cfg R6X.k0) R6X.e_refuse = SErr /\
+       ignores_parent R3X.cfg R3X.parent = false /\
+       snd (Prog.run (sync_finalizer R3X.cfg R3X.parent) R6X.e_refuse []) = Composite.ROk R3X.parent /\
+       snd (Prog.run (claim_children R3X.cfg R6X.k0 R3X.parent) R6X.e_refuse []) = Some [("apps/v1", "Thing", [])] /\
+       negb (any_rolling R3X.cfg) || is_deleting R3X.parent && negb (should_finalize R3X.cfg R3X.parent) = false.
+Proof. exact Round6Proofs.C09_refused_claim_ends_sync_inhabited. Qed.
+Print Assumptions C09_refused_claim_ends_sync_inhabited.
